@@ -5,6 +5,7 @@ tasks, client side and server side, through protocol.Stream.send_data and throug
 send_message) against a strict h2 peer that never re-credits on its own, on the virtual-time loop; and
 the direct oracle (the statement of C07 on what the peer saw)."""
 import logging
+import time
 
 from harness.core import Result
 from harness import c07_util as U
@@ -284,7 +285,12 @@ def canon(recs):
 def check_cases(ctx, res, cases):
     logging.disable(logging.CRITICAL)
     model = ctx.model([model_line(c) for c in cases]) if ctx.model_ok else None
+    budget = 45 if ctx.tier != 'thorough' else 780       # seconds of wall clock for the implementation runs
+    t0 = time.time()
     for j, case in enumerate(cases):
+        if time.time() - t0 > budget:
+            res.notes.append('wall-clock budget of %ds reached after %d of %d cases' % (budget, j, len(cases)))
+            break
         obs = U.run_case(case)
         res.evaluations += 1
         impl = impl_records(obs)
